@@ -165,6 +165,51 @@ def oracle(ctx):
                 else:
                     if got != "a":
                         ctx.violation("good_rejected", case, got, "accepted (sum unchanged)", site="Tle._checksum")
+        # the same through a file path that is rewritten in place, and through a stream
+        mods = []
+        for _ in range(ctx.size(30, 200)):
+            w, i = ctx.rng.choice(positions)
+            base = l1 if w == 1 else l2
+            ch = ctx.rng.choice("0123456789-+ A" if base[i] not in "0123456789" else "0123456789")
+            if ch == base[i] or ch in "\r\n":
+                continue
+            mod = base[:i] + ch + base[i + 1:]
+            mods.append((mod, l2) if w == 1 else (l1, mod))
+        inplace_file_probe(ctx, l1, l2, mods)
+
+
+def inplace_file_probe(ctx, l1, l2, mods, tmpdir=None):
+    """From files and streams: the intact set is read from a path first, then the SAME path is overwritten in place with
+    each corrupted set and read again (a result remembered for the path must not outlive the file's content)."""
+    own = tmpdir is None
+    tmpdir = tmpdir or tempfile.mkdtemp(prefix="pv-c09-")
+    bad = 0
+    try:
+        g0, _ = impl_outcome_source("file", l1, l2, tmpdir)
+        if g0 != "a":
+            ctx.violation("valid_rejected", {"line1": l1, "line2": l2, "via": "file"}, g0, "accepted", site="Tle.__init__")
+            return 1
+        for (a, b) in mods:
+            should = spec_good(a.strip()) and spec_good(b.strip())
+            for kind in ("file", "stringio"):
+                got, _ = impl_outcome_source(kind, a, b, tmpdir)
+                ctx.count("eval_oracle_" + kind)
+                if (not should and got == "a") or (should and got != "a"):
+                    ctx.violation("corrupt_accepted_from_source" if not should else "good_rejected",
+                                  {"line1": a, "line2": b, "via": kind, "intact_line1": l1, "intact_line2": l2,
+                                   "sequence": "intact set read from the path first, then the path rewritten in place"},
+                                  got, "rejected" if not should else "accepted", site="tlefile.read / Tle.__init__")
+                    bad += 1
+                    break
+            if bad:
+                break
+            # and the intact file again (so that every corrupted read follows a successful one)
+            impl_outcome_source("file", l1, l2, tmpdir)
+    finally:
+        if own:
+            import shutil
+            shutil.rmtree(tmpdir, ignore_errors=True)
+    return bad
 
 
 def match_known(entry, v):
@@ -173,6 +218,10 @@ def match_known(entry, v):
 
 def replay(ctx, case):
     inp = case.get("input", case)
+    if "intact_line1" in inp:
+        bad = inplace_file_probe(ctx, inp["intact_line1"], inp["intact_line2"], [(inp["line1"], inp["line2"])])
+        print("in-place file probe:", "violated" if bad else "ok")
+        return 1 if bad else 0
     got, yielded = impl_outcome(inp["line1"], inp["line2"])
     print("outcome:", got, "elements returned" if yielded else "no elements")
     should = spec_good(inp["line1"].strip()) and spec_good(inp["line2"].strip())
